@@ -53,7 +53,12 @@ def ctor_setup(params, extra=None):
             b.sym(name, ty)
         HL = Obj('hashlib', blake2b=Obj('blake2b', MAX_DIGEST_SIZE=64, SALT_SIZE=16, MAX_KEY_SIZE=64))
         b.bind('hashlib', HL)
-        b.bind('getattr', Model('getattr', lambda i, s, a, k: iter([(s, Obj('hashclass'))])))
+        def getattr_(interp, st, args, kwargs):
+            st.emit('attribute_lookup', obj=args[0], name=args[1], nargs=len(args))
+            yield st, Obj('hashclass')
+
+        b.HL = HL
+        b.bind('getattr', Model('getattr', getattr_))
         b.bind('super', Model('super', lambda i, s, a, k: iter([(s, Obj('super', __init__=Model('init', lambda i2, s2, a2, k2: iter([(s2, None)]))))])))
         if extra:
             extra(b)
@@ -106,6 +111,14 @@ def bits_ctor_post(prop, name, allowed):
         for p in res.paths:
             if p.kind in ('normal', 'return'):
                 res.oblige(p, f'{prop}.{name}_ctor.accepted_implies_supported_size', z3.Or(*[bits.z == a for a in allowed]))
+                if name in ('sha2', 'sha3'):
+                    # the hashlib constructor is resolved AT CONSTRUCTION (no default: a name hashlib does not have raises here), so a
+                    # value that merely compares equal to a supported size (256.0, True) is rejected by init before anything is stored
+                    lk = p.events('attribute_lookup')
+                    ok = len(lk) == 1 and lk[0].data['obj'] is b.HL and lk[0].data['nargs'] == 2
+                    prefix = 'sha' if name == 'sha2' else 'sha3_'
+                    res.oblige(p, f'{prop}.{name}_ctor.hash_constructor_resolved_at_construction', z3.BoolVal(ok) if not ok else
+                               sym.lift(lk[0].data['name'], STR).z == z3.Concat(z3.StringVal(prefix), UF('str_of_int', INT, STR)(bits.z)))
     return post
 
 
